@@ -158,3 +158,14 @@ Proof. repeat split; vm_compute; reflexivity. Qed.
 Example obs_keep_nonvacuous : obs_keep_impl ex3 = [(1, 12); (2, 16); (5, 20)].
 Proof. vm_compute. reflexivity. Qed.
 
+(* round 4: the default expansion of ex2: 11 records, no ADDL / II values left, amounts 3*10 + 20 + 2*5 *)
+Example expand_noflag_nonvacuous :
+  has_addl (ds_sch ex2) && has_ii (ds_sch ex2) = true /\ g_addl_nonneg (ds_rows ex2) = true
+  /\ match expand_noflag_impl ex2 with
+     | Ok l => map r_time l = [0; 20; 48; 52; 96; 120; 0; 4; 8; 24; 28]
+               /\ forallb (fun r => (r_addl r =? 0) && (r_ii r =? 0)) l = true /\ zsum (map r_amt l) = 240
+     | Err _ => False
+     end
+  /\ has_addl (ds_sch ex1) && has_ii (ds_sch ex1) = false.
+Proof. repeat split; vm_compute; reflexivity. Qed.
+
